@@ -1606,6 +1606,69 @@ class D2SortedReps(D2Space):
         return out
 
 
+def collinear_variants(base):
+    """base polygon -> variants with 1 or 2 redundant collinear vertices on one edge, and 1 on every edge."""
+    n = len(base)
+    out = [("plain", list(base))]
+    for e in range(n):
+        (x0, y0), (x1, y1) = base[e], base[(e + 1) % n]
+        for k in (1, 2):
+            extra = [(x0 + (x1 - x0) * j // (k + 1), y0 + (y1 - y0) * j // (k + 1)) for j in range(1, k + 1)]
+            out.append(("e%d+%d" % (e, k), base[:e + 1] + extra + base[e + 1:]))
+    allv = []
+    for e in range(n):
+        (x0, y0), (x1, y1) = base[e], base[(e + 1) % n]
+        allv += [base[e], ((x0 + x1) // 2, (y0 + y1) // 2)]
+    out.append(("all+1", allv))
+    return out
+
+
+class D2Collinear(D2Space):
+    """Rectilinear and octangular polygons with redundant collinear vertices in every position relative to the start vertex
+    (closing edge collinear with the last explicit edge / with the first explicit edge / neither; even and odd vertex counts)."""
+    name = "d2.collinear"
+    BASES = {
+        "rect": [(0, 0), (8000, 0), (8000, 4000), (0, 4000)],
+        "L": [(0, 0), (8000, 0), (8000, 2000), (2000, 2000), (2000, 6000), (0, 6000)],
+        "T": [(0, 0), (6000, 0), (6000, 2000), (4000, 2000), (4000, 6000), (2000, 6000), (2000, 2000), (0, 2000)],
+        "stair": [(0, 0), (6000, 0), (6000, 2000), (4000, 2000), (4000, 4000), (2000, 4000), (2000, 6000), (0, 6000)],
+        "octagon": [(2000, 0), (6000, 0), (8000, 2000), (8000, 6000), (6000, 8000), (2000, 8000), (0, 6000), (0, 2000)],
+        "diamond": [(4000, 0), (8000, 4000), (4000, 8000), (0, 4000)],
+        "arrow45": [(0, 0), (4000, 0), (8000, 4000), (4000, 8000), (0, 8000), (4000, 4000)],
+    }
+
+    def __init__(self):
+        self.groups = []
+        for bn, base in self.BASES.items():
+            for vn, v in collinear_variants(base):
+                self.groups.append((bn, vn, v))
+
+    def ngroups(self, tier):
+        return len(self.groups)
+
+    def describe(self, tier):
+        return ("%d polygons = {rectangle, L, T, staircase, octagon, diamond, 45-degree arrow} x {plain, 1 or 2 redundant collinear vertices on each single edge, 1 on every "
+                "edge}, each in every cyclic rotation of the start vertex and both orientations (so the implicit closing edge is collinear with the last explicit edge, with "
+                "the first, or with neither; even and odd counts; horizontal-first and vertical-first) x %s; vertices compared exactly (no dropping)") % (
+                    len(self.groups), "2 option sets" if tier == "quick" else "6 option sets")
+
+    def cases(self, g, tier):
+        bn, vn, v = self.groups[g]
+        out = []
+        opts = ((0, 0x00), (6, 0x30)) if tier == "quick" else ((0, 0), (6, 0x30), (6, 0x10), (0, 0x20), (9, 0x3F), (1, 0x0F | 0x40))
+        for rot in range(len(v)):
+            for rev in (0, 1):
+                w = v[rot:] + v[:rot]
+                if rev:
+                    w = w[::-1]
+                w = [(x - 1000, y + 500) for x, y in w]
+                cmds = ["cell A", "poly 5 6 " + " ".join(pt(q) for q in w)]
+                for lvl, fl in opts:
+                    out.append({"cmds": cmds, "level": lvl, "flags": fl, "tol": 0, "hints": {},
+                                "label": {"shape": bn, "variant": vn, "rotation": rot, "reversed": rev, "vertices": len(w), "level": lvl, "flags": fl}})
+        return out
+
+
 class D2History(D2Space):
     """Save histories on ONE Library object: every written file must be true about itself."""
     name = "d2.history"
@@ -1661,7 +1724,7 @@ class D2History(D2Space):
         return out
 
 
-D2_SPACES = [D2Shapes, D2Elements, D2PropCounts, D2Transforms, D2SortedReps, D2History, D2Options]
+D2_SPACES = [D2Shapes, D2Collinear, D2Elements, D2PropCounts, D2Transforms, D2SortedReps, D2History, D2Options]
 
 
 # ---------------------------------------------------------------------------- direction 2: model of the saved library
